@@ -9,3 +9,6 @@ import (
 
 func MarshalDate(d *sup.Date) ([]byte, error) { return json.Marshal(d) }
 func UnmarshalDate(b []byte, d *sup.Date) error { return json.Unmarshal(b, d) }
+
+// Tag is a type of this package (a target for `bind:`); verifharness/altsup/alpha/codec has one of the same name.
+type Tag string
